@@ -17,6 +17,12 @@
 
 (define *default-max-col* 76)
 
+;; read-bytevector returns the eof object, not an empty bytevector,
+;; when the port has no data
+(define (read-all-bytes in)
+  (let ((bv (read-bytevector 1000000000 in)))
+    (if (eof-object? bv) (bytevector) bv)))
+
 ;; Allow for RFC1522 quoting for headers by always escaping ? and _
 (define (qp-encode bv start-col max-col separator)
   (define (hex i) (+ i (if (<= i 9) 48 55)))
@@ -68,7 +74,7 @@
          (max-col (if (pair? o) (car o) *default-max-col*))
          (o (if (pair? o) (cdr o) '()))
          (sep (if (pair? o) (car o) (string->utf8 "=\r\n"))))
-    (qp-encode (if (bytevector? src) src (read-bytevector 1000000000 src))
+    (qp-encode (if (bytevector? src) src (read-all-bytes src))
                start-col max-col sep)))
 
 ;;> Variation of the above to read and write to ports.
@@ -125,7 +131,7 @@
     (+ (arithmetic-shift (unhex1 c1) 4) (unhex1 c2)))
   (let ((src (if (pair? o) (car o) (current-input-port)))
         (mime-header? (and (pair? o) (pair? (cdr o)) (car (cdr o)))))
-    (let* ((bv (if (bytevector? src) src (read-bytevector 1000000000 src)))
+    (let* ((bv (if (bytevector? src) src (read-all-bytes src)))
            (end (bytevector-length bv))
            (out (open-output-bytevector)))
       (let lp ((i 0))
